@@ -5,3 +5,4 @@ import RSVerif.Properties.C17
 #print axioms RS.renew_alloc_iff_grows
 #print axioms RS.allocs_count
 #print axioms RS.one_allocation
+#print axioms RS.source_reset
